@@ -35,6 +35,12 @@ theorem self_reference_detected (p : Program) (deps : String → List String) (c
     (hd : c.resultName ∈ deps c.resultName) (hk : (p.find? c.resultName).isSome = true) : hasCycle p deps = true :=
   cycle_detected p deps c.resultName (.single ⟨⟨c, hc, rfl⟩, hd, hk⟩)
 
+/-- two commands that refer to each other -/
+theorem mutual_reference_detected (p : Program) (deps : String → List String) (a b : PCmd) (ha : a ∈ p.cmds) (hb : b ∈ p.cmds)
+    (hab : b.resultName ∈ deps a.resultName) (hba : a.resultName ∈ deps b.resultName)
+    (ka : (p.find? a.resultName).isSome = true) (kb : (p.find? b.resultName).isSome = true) : hasCycle p deps = true :=
+  cycle_detected p deps a.resultName (.tail (.single ⟨⟨a, ha, rfl⟩, hab, kb⟩) ⟨⟨b, hb, rfl⟩, hba, ka⟩)
+
 /-- **a cyclic model is rejected and nothing runs**: whenever the pre-pass succeeds and the references it collected contain a loop,
 `run` ends with the recursive-model error and the state (what was executed, what is memoised) is what it was -/
 theorem cyclic_model_rejected (sem : Sem Val) (p : Program) (st : St Val)
